@@ -79,7 +79,7 @@ type stop struct{ v string }
 
 func (s stop) Next() link      { return nil }
 func (s stop) Val() string     { return s.v }
-func (s stop) Wrap(l link) link { return l.Wrap(s) }
+func (s stop) Wrap(l link) link { return &cell{n: l, v: s.v} }
 
 func mk(s string) link {
 	c := &cell{v: s}
@@ -227,10 +227,10 @@ def render_shape(rec):
                 L += ["\temp()", "\temp2%s(y)" % G, "\tdefer emp()", "\tgo emp()", "\t_ = emp3()"]
             if "switch" in shapes:
                 L.append("\tswitch oracleN() {")
-                for c in range(48):
+                for c in range(32):
                     L.append("\tcase %d:" % c)
                     L.append("\t\ty = work%s(%s)" % (G, "y" if c % 3 else "x"))
-                    if c % 7 == 0:
+                    if c == 7:
                         L.append("\t\tfallthrough")
                 L += ["\tdefault:", "\t\ty = x", "\t}"]
         for idx, e in enumerate(edges):
